@@ -225,6 +225,9 @@ fn log_op(ix: usize, pc: usize, k: &str, r: i64) {
 
 /// A value owned by every task: captured by its closure / future when it is spawned and moved onto the task's
 /// stack when it starts.  All of them must be gone once the execution has been torn down (C14).
+#[derive(Clone, Debug)]
+pub struct UserLabel(pub i64);
+
 pub struct Token(u64);
 
 impl Token {
@@ -420,6 +423,14 @@ fn exec_op<'a>(warc: &Arc<World>, w: &'a World, _ix: usize, op: &Op, guards: &mu
         "tid" => {
             let id: usize = thread::current().id().into();
             id as i64
+        }
+        "label_set" => {
+            let me = shuttle::current::me();
+            shuttle::current::set_label_for_task::<UserLabel>(me, UserLabel(op.v)).map(|l| l.0).unwrap_or(-1)
+        }
+        "label_get" => {
+            let me = shuttle::current::me();
+            shuttle::current::get_label_for_task::<UserLabel>(me).map(|l| l.0).unwrap_or(-1)
         }
         "name" => match thread::current().name() {
             None => -1,
